@@ -238,7 +238,9 @@ def event_race(sl):
                                 seen.append('volume')
                                 return 0.0
                             return None
-                        env = {'current_time': c, 'c_timepoints': [1.0, tp, 50.0], 'current_index': 1, 'num_timepoints': 3, 'num_species': 1,
+                        # the requested grid is not evenly spaced (supported input): 0, 1, tp, 50 with rows 0 and 1 already recorded
+                        grid = [0.0, 1.0, tp, 50.0]
+                        env = {'current_time': c, 'c_timepoints': list(grid), 'timepoints': list(grid), 'current_index': 2, 'num_timepoints': 4, 'num_species': 1,
                                'num_reactions': 1, 'delta_t': 1.0, 'dt': 1.0, 'Lambda': 0.0, 'proposed_time': 0.0, 'reaction_fired': 0, 'rule_step': 1,
                                'move_to_queued_time': 0, 'step_type': 0, 'current_volume': 1.0, 'cell_divided': 0, 'final_time': 50.0,
                                'next_queue_time': V if V is not None else 0.0, 'next_vol_time': V if V is not None else 0.0,
@@ -254,7 +256,9 @@ def event_race(sl):
                         tag = 'clock %s, next time point %s, Lambda %s%s%s%s' % (c, tp, L, '' if E is None else ', waiting time %s' % E,
                                                                               '' if Q is None else ', queue at %s' % Q, '' if V is None else ', volume step at %s' % V)
                         if ex.aborted or not isinstance(new, float):
-                            raise AnalysisError('%s: loop body not evaluated for %s (%s, clock %r)' % (key, tag, ex.aborted, new))
+                            # the pass reads a local carried over from the set-up code or from the pass before: not evaluable in isolation
+                            # (event_race_run evaluates the function from its first statement)
+                            return None, n
                         cand = {}
                         if L > 0:
                             cand['reaction'] = c + E
@@ -275,4 +279,126 @@ def event_race(sl):
                             problems.append('%s: %s is carried out although %s came first' % (tag, acts[0], '/'.join(sorted(winners))))
                         elif not acts and 'timepoint' not in winners:
                             problems.append('%s: nothing happens although %s is due' % (tag, '/'.join(sorted(winners))))
+    return problems, n
+
+
+def event_race_run(sl, max_passes=14):
+    """The simulator function evaluated from its first statement (templates.StrExec): the set-up code, then pass after pass of the main
+    loop, on an unevenly spaced grid with a scripted sequence of total propensities and waiting times; the delay queue and the volume
+    object are modelled by their clocks.  After every pass the new clock must be the earliest pending event and the event carried out the
+    one that won (see event_race).  Returns (problems, passes evaluated)."""
+    from .templates import StrExec, UNKNOWN
+    key = sl.key
+    has_q = key in ('DelaySSASimulator', 'DelayVolumeSSASimulator')
+    has_v = key in ('VolumeSSASimulator', 'DelayVolumeSSASimulator')
+    grid = [0.0, 1.0, 2.5, 3.0, 6.0]
+    Ls = [3.0, 3.0, 0.0, 3.0, 3.0, 3.0, 0.0, 3.0, 3.0, 0.0, 3.0, 3.0, 3.0, 3.0]
+    Es = [0.4, 0.3, None, 5.0, 0.2, 0.05, None, 1.7, 0.6, None, 0.15, 2.2, 0.35, 0.9]
+    st = {'pass': 0, 'Q': None, 'seen': []}
+
+    def hook(nd, ex):
+        nm = src(nd.func).split('.')[-1]
+        if nm == 'array_sum':
+            return Ls[st['pass']]
+        if nm == 'exponential_rv':
+            e_ = Es[st['pass']]
+            return e_ if e_ is not None else UNKNOWN
+        if nm == 'get_initial_time':
+            return 0.0
+        if nm == 'get_dt':
+            return 1.0
+        if nm == 'get_volume':
+            return 1.0
+        if nm == 'cell_divided':
+            return 0
+        if nm == 'set_current_time' and nd.args:
+            t_ = ex.ev(nd.args[0])
+            st['Q'] = (t_ + 1.0) if isinstance(t_, float) else UNKNOWN
+            return UNKNOWN
+        if nm == 'get_next_queue_time':
+            return st['Q'] if st['Q'] is not None else UNKNOWN
+        if nm == 'sample_discrete':
+            st['seen'].append('reaction')
+            return 0
+        if nm == 'advance_time':
+            st['seen'].append('queue')
+            if isinstance(st['Q'], float):
+                st['Q'] += 1.0
+            return UNKNOWN
+        if nm == 'get_volume_step':
+            st['seen'].append('volume')
+            return 0.0
+        if nm == 'compute_delay':
+            return 0.7
+        return None
+    params = [a.arg for a in sl.f.args.args]
+    env = {}
+    for p_ in params:
+        if 'timepoints' in p_:
+            env[p_] = list(grid)
+    ex = StrExec(env, tracked=set(), call_hook=hook)
+    ex.run(sl.pre)
+    if ex.aborted:
+        raise AnalysisError('%s: set-up code not evaluated (%s)' % (key, ex.aborted))
+    if has_q and st['Q'] is None:
+        st['Q'] = 1.0
+    tp_name = 'c_timepoints' if isinstance(ex.env.get('c_timepoints'), list) else [p_ for p_ in params if 'timepoints' in p_][0]
+    vname = 'next_queue_time' if key == 'VolumeSSASimulator' else 'next_vol_time'
+    problems = []
+    n = 0
+    for i in range(max_passes):
+        st['pass'] = i
+        st['seen'] = []
+        t = ex.ev(sl.loop.test)
+        if t is UNKNOWN:
+            raise AnalysisError('%s: loop condition not evaluated at pass %d' % (key, i))
+        if not t:
+            break
+        c, idx = ex.env.get('current_time'), ex.env.get('current_index')
+        V = ex.env.get(vname) if has_v else None
+        Q = st['Q'] if has_q else None
+        if not isinstance(c, float) or not isinstance(idx, int) or (has_v and not isinstance(V, float)) or (has_q and not isinstance(Q, float)):
+            raise AnalysisError('%s: state not determined before pass %d (clock %r, row %r, volume clock %r, queue %r)' % (key, i, c, idx, V, Q))
+        tp = grid[idx]
+        L, E = Ls[i], Es[i]
+        try:
+            ex.run(sl.loop.body)
+        except Exception as e:
+            if type(e).__name__ == '_Break':
+                break
+            if type(e).__name__ != '_Continue':
+                raise
+        n += 1
+        new = ex.env.get('current_time')
+        tag = 'pass %d (clock %s, next time point %s, Lambda %s%s%s%s)' % (i, c, tp, L, '' if E is None else ', waiting time %s' % E,
+                                                                          '' if Q is None else ', queue at %s' % Q, '' if V is None else ', volume step at %s' % V)
+        if ex.aborted or not isinstance(new, float):
+            raise AnalysisError('%s: %s not evaluated (%s, clock %r)' % (key, tag, ex.aborted, new))
+        cand = {}
+        if L > 0:
+            cand['reaction'] = c + E
+        if L == 0 or key in ('SSASimulator', 'DelaySSASimulator'):
+            cand['timepoint'] = tp
+        if has_q:
+            cand['queue'] = Q
+        if has_v:
+            cand['volume'] = V
+        best = min(cand.values())
+        winners = {k_ for k_, v_ in cand.items() if abs(v_ - best) < 1e-12}
+        acts = list(st['seen'])
+        if abs(new - best) > 1e-9:
+            problems.append('%s: the clock goes to %s, the earliest event is %s at %s' % (tag, new, '/'.join(sorted(winners)), best))
+            break
+        elif len(acts) > 1:
+            problems.append('%s: more than one event is carried out in one pass (%s)' % (tag, acts))
+        elif acts and acts[0] not in winners:
+            problems.append('%s: %s is carried out although %s came first' % (tag, acts[0], '/'.join(sorted(winners))))
+        elif not acts and 'timepoint' not in winners:
+            problems.append('%s: nothing happens although %s is due' % (tag, '/'.join(sorted(winners))))
+        idx2 = ex.env.get('current_index')
+        if isinstance(idx2, int):
+            want_idx = len([g_ for g_ in grid if g_ <= new + 1e-12])
+            if idx2 != max(idx, want_idx):
+                problems.append('%s: %d rows are recorded up to time %s, the grid has %d time points up to there' % (tag, idx2, new, want_idx))
+                break
     return problems, n
